@@ -241,14 +241,17 @@ def addPulse (label : Nat) (sw : Rat × Wave) : List (Nat × List (Rat × Wave))
   | [] => [(label, [sw])]
   | (l, ch) :: rest => if l = label then (l, ch ++ [sw]) :: rest else (l, ch) :: addPulse label sw rest
 
+/-- one pulse of `instruction.pulse_info` -/
+def groupOne (tl : TList) (s : Rat) (a : Option (List (Nat × List (Rat × Wave)))) (lc : Nat × Coef) :
+    Option (List (Nat × List (Rat × Wave))) :=
+  match a, mkWave tl lc.2 with
+  | some a, some w => some (addPulse lc.1 (s, w) a)
+  | _, _ => none
+
 def groupPulses : List (Instr × Rat) → List (Nat × List (Rat × Wave)) → Option (List (Nat × List (Rat × Wave)))
   | [], acc => some acc
   | (i, s) :: rest, acc =>
-    let step : Option (List (Nat × List (Rat × Wave))) :=
-      i.pulses.foldl (fun a lc => match a, mkWave i.tl lc.2 with
-        | some a, some w => some (addPulse lc.1 (s, w) a)
-        | _, _ => none) (some acc)
-    match step with
+    match i.pulses.foldl (groupOne i.tl s) (some acc) with
     | none => none
     | some acc' => groupPulses rest acc'
 
